@@ -8,7 +8,7 @@
    selects `Option<T>`.  [wf_vals]: every value is in the range of its Rust type, nulls
    only when nullable, fewer than 2^63 values. *)
 From AM Require Import Base.Prelude Base.Leb128 Hexane.Hleb Hexane.HlebProofs Hexane.Rle Hexane.RleProofs
-  Hexane.BoolCol Hexane.BoolColProofs Hexane.Delta Hexane.DeltaProofs.
+  Hexane.BoolCol Hexane.BoolColProofs Hexane.Delta Hexane.DeltaProofs Hexane.DeltaAccept.
 Local Open Scope N_scope.
 
 (* 1. save then load gives the same values: per column type *)
@@ -111,28 +111,21 @@ Proof.
   intros nullable b rs. apply (C35_rle_load_canonical N N.eqb u64_enc u64_dec nullable wf_u64 N_eqb_spec u64_dec_enc u64_enc_nonempty u64_dec_wf).
 Qed.
 
-(* 4. never panics — REFUTED on the unchanged tree (debug build: overflow checks on), with
-   the exact scope of the defect: a load panics only if the input carries a literal-run
-   header equal to i64::MIN or declares 2^64 or more items. *)
-Theorem C35_load_never_panics_partial :
+(* 4. loading arbitrary bytes never panics (as of /repo a623e02f7 and 1187ab90a: i64::MIN literal headers
+   and item counts of 2^64 and more are BadFormat errors).  Over the abstract codec, hence
+   for u64 / i64 / String / Vec<u8>, nullable or not. *)
+Theorem C35_load_never_panics :
   forall (V : Type) (veqb : V -> V -> bool) (dec : bytes -> option (V * bytes)) (nullable : bool) (b : bytes),
-  rle_load V veqb dec nullable b = Panic ->
-  has_min_header V dec b = true \/ pow64 <= declared_items V dec b.
-Proof. intros V veqb dec nullable b. exact (rle_load_panic V veqb (fun _ => []) dec nullable b). Qed.
+  rle_load V veqb dec nullable b <> Panic.
+Proof. intros V veqb dec nullable b. exact (rle_load_no_panic V veqb dec nullable b). Qed.
 
-Theorem C35_load_never_panics_refuted_min_header :
-  exists b : bytes, wf_bytes b /\ u64_load false b = Panic.
-Proof.
-  exists [128;128;128;128;128;128;128;128;128;127]. split; [|vm_compute; reflexivity].
-  apply wf_bytesb_spec. vm_compute. reflexivity.
-Qed.
-
-Theorem C35_load_never_panics_refuted_item_overflow :
-  exists b : bytes, wf_bytes b /\ u64_load true b = Panic.
-Proof.
-  exists [0;255;255;255;255;255;255;255;255;255;1;2;5]. split; [|vm_compute; reflexivity].
-  apply wf_bytesb_spec. vm_compute. reflexivity.
-Qed.
+(* the inputs that used to panic are now rejected *)
+Example C35_former_panics_rejected :
+  u64_load false [128;128;128;128;128;128;128;128;128;127] = Err /\
+  u64_load true [0;255;255;255;255;255;255;255;255;255;1;2;5] = Err /\
+  u64_load true [0;255;255;255;255;255;255;255;255;255;1] = Err /\
+  u64_load true [0;254;255;255;255;255;255;255;255;255;1] = Ok [(18446744073709551614, None)].
+Proof. repeat split; vm_compute; reflexivity. Qed.
 
 Theorem C35_i64_load_canonical : forall nullable (b : bytes) rs,
   wf_bytes b -> i64_load nullable b = Ok rs ->
@@ -174,32 +167,45 @@ Proof.
   - exact (bool_load_group b rs Hwf H).
 Qed.
 
-Theorem C35_bool_never_panics_partial : forall b : bytes,
-  bool_load b = Panic -> pow64 <= bool_declared b.
-Proof. exact bool_load_panic. Qed.
+Theorem C35_bool_load_never_panics : forall b : bytes, bool_load b <> Panic.
+Proof. exact bool_load_no_panic. Qed.
 
-Theorem C35_bool_never_panics_refuted : exists b : bytes, wf_bytes b /\ bool_load b = Panic.
+(* 6. delta columns.  [lo],[hi]: the i64 domain of the element type (i64: the whole range;
+   u64: 0 .. i64::MAX).  The delta loader accepts a subset of the i64 RLE loader with the
+   same runs, so canonical form transfers; re-save is proved for all bytes.  Save then load:
+   proved for every value list inside a window [wlo, whi] that contains 0, is at most
+   2^63 - 1 wide and lies inside the domain -- for u64 / Option<u64> columns that is every
+   list the type can hold (C35_delta_u64_load_save).  hexane's documented contract for signed
+   columns (any 2^63-wide window, 0 not necessarily inside) is wider: outside the window
+   hypothesis only the second half is proved (C35_delta_load_save_partial: IF the loader
+   accepts the writer's output THEN it holds the same values). *)
+Theorem C35_delta_load_save : forall (nullable : bool) (lo hi wlo whi : Z) (vs : list (option Z)),
+  (lo <= wlo)%Z -> (whi <= hi)%Z -> (i64_min <= wlo)%Z -> (whi <= i64_max)%Z ->
+  (wlo <= 0 <= whi)%Z -> (whi - wlo <= i64_max)%Z ->
+  delta_dom nullable wlo whi vs ->
+  delta_load_vals nullable lo hi (delta_save vs) = Ok vs.
+Proof. intros. eapply delta_load_vals_save; eauto. Qed.
+
+Theorem C35_delta_u64_load_save : forall (nullable : bool) (vs : list (option Z)),
+  delta_dom nullable 0 i64_max vs ->
+  delta_load_vals nullable 0 i64_max (delta_save vs) = Ok vs.
 Proof.
-  exists [255;255;255;255;255;255;255;255;255;1;1]. split; [|vm_compute; reflexivity].
-  apply wf_bytesb_spec. vm_compute. reflexivity.
+  intros nullable vs H. apply (delta_load_vals_save nullable 0 i64_max 0 i64_max);
+    rewrite ?i64_min_val, ?i64_max_val; try lia. exact H.
 Qed.
 
-(* 6. delta columns.  [lo],[hi]: the i64 domain of the element type.  The delta loader
-   accepts a subset of the i64 RLE loader with the same runs, so canonical form and the
-   panic scope transfer; re-save is proved; of the save/load round trip only the second half
-   is proved (IF the loader accepts the writer's output THEN it holds the same values):
-   that the per-slab domain check accepts every in-domain list is checked differentially. *)
 Theorem C35_delta_load_is_rle_load : forall nullable lo hi (b : bytes) rs,
   delta_load nullable lo hi b = Ok rs -> i64_load nullable b = Ok rs.
 Proof. exact delta_load_rle. Qed.
 
-Theorem C35_delta_never_panics_partial : forall nullable lo hi (b : bytes),
-  delta_load nullable lo hi b = Panic ->
-  has_min_header Z i64_dec b = true \/ pow64 <= declared_items Z i64_dec b.
-Proof.
-  intros nullable lo hi b H. apply delta_load_panic_rle in H.
-  exact (rle_load_panic Z Z.eqb (fun _ => []) i64_dec nullable b H).
-Qed.
+Theorem C35_delta_load_never_panics : forall nullable lo hi (b : bytes),
+  delta_load nullable lo hi b <> Panic.
+Proof. exact delta_load_no_panic. Qed.
+
+Example C35_delta_former_panic_rejected :
+  delta_load false i64_min i64_max
+    [255;255;255;255;255;255;255;255;255;0;0; 255;255;255;255;255;255;255;255;255;0;1; 2;0] = Err.
+Proof. vm_compute. reflexivity. Qed.
 
 Theorem C35_delta_resave : forall nullable lo hi (b : bytes) rs,
   wf_bytes b -> delta_load nullable lo hi b = Ok rs ->
@@ -241,3 +247,11 @@ Example C35_delta_nonvacuous :
   delta_load_vals true 0 9223372036854775807 [127;228;0;2;1;0;1;127;226;0]
     = Ok [Some 100%Z; Some 101%Z; Some 102%Z; None; Some 200%Z].
 Proof. split; vm_compute; reflexivity. Qed.
+Example C35_delta_load_save_nonvacuous :
+  delta_dom true 0 i64_max [Some 100%Z; Some 101%Z; None; Some 9223372036854775807%Z; Some 0%Z].
+Proof.
+  unfold delta_dom. rewrite i64_max_val. split; [|split].
+  - repeat constructor; unfold win; cbn; lia.
+  - repeat constructor; auto; discriminate.
+  - cbn. rewrite pow63_val. lia.
+Qed.
